@@ -242,6 +242,9 @@ func TestCompiles(t *testing.T) {
 		}
 		p := idl.Gen(rt, mc)
 		idl.AddEnumNumberConsts(rt, p)
+		if backend == "fastgo" && vt.Known(prop, "fastgo-files-sharing-a-package") && filesShareGoPackage(p) {
+			backend = "go" // e.g. two files whose only namespace is the same `namespace * x`
+		}
 		if vt.Known(prop, "unused-import-typedef-const") && retypeCrossFileBaseTypedefConsts(p) > 0 {
 			vt.Excluded("unused-import-typedef-const")
 		}
@@ -357,6 +360,9 @@ func applyKnown(p *idl.Program, c *genCase) {
 			drop("value-type-in-container-const", "value_type_in_container")
 		}
 	}
+	if optOn(c.Options, "apache_adaptor") && vt.Known(prop, "apache-adaptor-unused-import") && len(p.Files) > 1 {
+		drop("apache-adaptor-unused-import", "apache_adaptor")
+	}
 	if optOn(c.Options, "with_reflection") && vt.Known(prop, "reflection-same-base-name-in-package") && sameBaseInOnePackage(p) {
 		drop("reflection-same-base-name-in-package", "with_reflection")
 	}
@@ -389,6 +395,19 @@ func goPackageOf(f *idl.File) string {
 		return ns
 	}
 	return strings.ToLower(f.Prefix())
+}
+
+// filesShareGoPackage: two IDL files land in one Go package.
+func filesShareGoPackage(p *idl.Program) bool {
+	seen := map[string]bool{}
+	for _, f := range p.Files {
+		k := goPackageOf(f)
+		if seen[k] {
+			return true
+		}
+		seen[k] = true
+	}
+	return false
 }
 
 // sameBaseInOnePackage: two IDL files with the same base name land in one Go package.
@@ -455,8 +474,17 @@ func retypeCrossFileBaseTypedefConsts(p *idl.Program) int {
 				continue
 			}
 			// ... or by the name of a constant that lives in another package than the type
-			if d.Value.RefConst != nil && d.Type.Ref != nil && d.Type.Ref.File != f && d.Value.RefConst.File != d.Type.Ref.File && d.Type.FinalCat() == "enum" {
-				d.Value = &idl.Value{Kind: idl.VInt}
+			if d.Value.RefConst != nil && d.Type.Ref != nil && d.Type.Ref.File != f && d.Value.RefConst.File != d.Type.Ref.File {
+				switch d.Type.FinalCat() {
+				case "enum":
+					d.Value = &idl.Value{Kind: idl.VInt}
+				case "list", "set":
+					d.Value = &idl.Value{Kind: idl.VList, List: []*idl.Value{}}
+					n++
+				case "map", "struct", "exception":
+					d.Value = &idl.Value{Kind: idl.VMap, List: []*idl.Value{}, Keys: []*idl.Value{}}
+					n++
+				}
 			}
 			if d.Value.Kind != idl.VInt {
 				continue
